@@ -119,12 +119,21 @@ def parseActions (s : String) : Option (List Action) :=
 structure St where
   h : Handler := .morpheus
   univ : List Key := []
-  cur : Store := fun _ => none
+  blk : Block := { parent := fun _ => none }
   live : Bool := false
+
+/-- the block diff (`TState.ChangedKeys`) over the universe: `k=v`, `k=~` for a delete -/
+def diffString (univ : List Key) (b : Block) : String :=
+  let parts := (sortKeys univ.eraseDups).filterMap fun k =>
+    match b.diff k with
+    | none => none
+    | some none => some (toHex k ++ "=~")
+    | some (some v) => some (toHex k ++ "=" ++ toHex v)
+  if parts.isEmpty then "none" else ",".intercalate parts
 
 def reset (hs us is : String) : Option St :=
   match parseHandler hs, parseKeys us, parseKV is with
-  | some h, some u, some kv => some { h, univ := u, cur := storeOf kv, live := true }
+  | some h, some u, some kv => some { h, univ := u, blk := { parent := storeOf kv }, live := true }
   | _, _, _ => none
 
 end Driver.TxCommon
